@@ -163,7 +163,7 @@ fn run(ctx: &mut Ctx, si: usize, case: u64) {
     match si {
         0 => {
             let enc = Enc::ALL[ctx.rng.usize_below(4)];
-            let mut o = GenOpts::standard();
+            let mut o = GenOpts::unmodelled();
             o.early_tables = true;
             o.max_syms = 4;
             o.density = 4;
